@@ -52,6 +52,10 @@ CATALOGUE = {
     "comment_runs": ("subroutine cr(v, m)\n  ! one\n  ! two\n  real :: v(3)\n  logical :: m(3)\n  v = 0\n  ! three\n\n  ! four\n  where (m)\n    ! five\n    ! six\n    v = 1\n  elsewhere\n    v = 2\n  end where\n"
                      "  ! seven\n  ! eight\n  if (v(1) > 0) then\n    ! nine\n    ! ten\n    v(1) = 0\n  end if\n  ! eleven\n  ! twelve\n  do i = 1, 3\n    v(i) = i\n  end do\n  ! thirteen\n  ! fourteen\n"
                      "  select case (i)\n  ! fifteen\n  ! sixteen\n  case (1)\n    v = 3\n  end select\n  ! seventeen\n  ! eighteen\nend subroutine cr\n! nineteen\n! twenty\n"),
+    # names are case-insensitive: the END statements (and construct ends) spell the names in another case than the openers
+    "mixed_case_names": ("module MixMod\n  type :: PointT\n    real :: x\n  end type pointt\n  interface Gen\n    module procedure Sub1\n  end interface GEN\ncontains\n"
+                         "  subroutine Sub1(a)\n    real :: a\n    Outer: do i = 1, 3\n      Chk: if (a > 0) then\n        a = a - 1\n      end if CHK\n    end do outer\n  end subroutine SUB1\n"
+                         "  integer function Fun2(k)\n    integer :: k\n    fun2 = k\n  end function fUN2\nend module mixmod\nprogram MainP\n  use mixmod\n  x = 1\nend program mainp\n"),
     "anonymous_main": "integer :: a, b(3)\nreal :: x\na = 1\nif (a > 0) then\n  b(a) = 2\nend if\ncall s(a)\nend\nsubroutine s(k)\n  integer :: k\n  k = k + 1\nend subroutine s\n",
 }
 F2008_EXTRA = {
